@@ -3,6 +3,7 @@ package engine
 import (
 	"encoding/json"
 	"fmt"
+	"os"
 	"sort"
 	"strings"
 	"time"
@@ -13,6 +14,7 @@ import (
 // SScenario is one closed driver for the schedule explorer (engine S).
 type SScenario struct {
 	Name       string
+	Heavy      bool // large schedule space: the quick tier stops one bound earlier
 	TimersFree bool
 	MaxTicks   int
 	Horizon    int
@@ -81,10 +83,14 @@ func WorkSchedules(scs []*SScenario, job json.RawMessage) json.RawMessage {
 
 // SPlan says how deep to explore.
 type SPlan struct {
-	Bounds    []int // iterated in order; -1 = unbounded with trace-key pruning
-	Race      bool  // run the workers in the race-enabled build and collect race reports
-	RaceProp  bool  // race reports count as findings of this property
-	RaceFuncs []string
+	Bounds []int // iterated in order; -1 = unbounded with trace-key pruning
+	Race   bool  // run the workers in the race-enabled build and collect race reports
+	// RaceMaxBound: bounds above this one run in the plain build (the functional
+	// oracles do not need the race detector, which costs a factor of 5-10); every
+	// pair of operations that can be unordered is already unordered at bound <= 1.
+	RaceMaxBound int
+	RaceProp     bool // race reports count as findings of this property
+	RaceFuncs    []string
 }
 
 // RunSchedules explores every scenario with the iterated bounds on the worker
@@ -93,22 +99,36 @@ func RunSchedules(c *Ctx, scs []*SScenario, plan SPlan, rep *Report) {
 	if rep.Coverage == nil {
 		rep.Coverage = map[string]any{}
 	}
-	pool := c.PoolFor(plan.Race)
+	racePool := c.PoolFor(plan.Race)
+	plainPool := c.PoolFor(false)
+	racePool.Recycle = 400
+	defer racePool.Close()
+	defer plainPool.Close()
 	total := &rt.ExploreStats{Complete: true}
 	perScenario := map[string]any{}
 	maxBoundAll := 1 << 30
 	budgetHit := false
 	var samples []any
 	for _, sc := range scs {
+		if only := os.Getenv("VERIF_ONLY"); only != "" && !strings.Contains(sc.Name, only) {
+			continue
+		}
 		info := map[string]any{}
 		completed := "none"
 		completedInt := -2
 		distinct := map[string]int{}
 		seenClause := map[string]bool{}
-		for _, b := range plan.Bounds {
+		for bidx, b := range plan.Bounds {
 			if time.Now().After(c.Deadline()) {
 				budgetHit = true
 				break
+			}
+			if sc.Heavy && !c.Thorough && bidx == len(plan.Bounds)-1 && bidx > 0 {
+				break
+			}
+			pool := racePool
+			if plan.Race && plan.RaceMaxBound > 0 && (b > plan.RaceMaxBound || b < 0 || (sc.Heavy && b >= 1)) {
+				pool = plainPool
 			}
 			cache := b < 0
 			o := sc.opts(b, cache)
@@ -161,6 +181,7 @@ func RunSchedules(c *Ctx, scs []*SScenario, plan SPlan, rep *Report) {
 				"max_choice_depth": st.MaxDepth, "max_points": st.MaxPoints, "distinct_outcomes": len(st.Outcomes), "complete": st.Complete,
 				"violating_executions": st.NViolations, "horizon_hits": st.Horizons, "points_per_thread_max": st.PerThreadMax}
 			info[boundName(b)] = bi
+			bi["race_build"] = pool == racePool && plan.Race
 			total.Merge(st)
 			if st.Complete {
 				completed = boundName(b)
@@ -263,8 +284,7 @@ func confirm(c *Ctx, pool *Pool, sc *SScenario, v rt.Violation) (bool, []string,
 	jb, _ := json.Marshal(sJob{Scenario: sc.Name, Confirm: v.Choices})
 	okCount := 0
 	var names, windows []string
-	p2 := *pool
-	p2.N = 1
+	p2 := Pool{Bin: pool.Bin, Args: pool.Args, Env: pool.Env, N: 1}
 	for i := 0; i < 2; i++ {
 		p2.Map([]json.RawMessage{jb}, func(_ int, res json.RawMessage) {
 			var r sRes
